@@ -467,3 +467,64 @@ Section StoreProofs.
     subst c. now apply new_chunk_ok_valid.
   Qed.
 End StoreProofs.
+
+(* ---------- HTTPHandler.idFromPath ---------- *)
+
+Lemma http_path_rule comp p i : http_id_from_path comp p = Some i ->
+  exists sid, p = slash :: firstn 4 sid ++ slash :: sid ++ ext_of (negb comp) /\ unhex_id sid = Some i.
+Proof.
+  unfold http_id_from_path. destruct p as [|s rest]; [discriminate|].
+  destruct (N.eqb s slash) eqn:S; [|discriminate]. apply N.eqb_eq in S. subst s. cbn [andb].
+  destruct (4 <=? length rest) eqn:L; [|discriminate]. apply Nat.leb_le in L.
+  destruct (skipn 4 rest) as [|s2 nm] eqn:K; [discriminate|].
+  destruct (N.eqb s2 slash) eqn:S2; [|discriminate]. apply N.eqb_eq in S2. subst s2. cbn [andb].
+  destruct (has_suffix nm (ext_of (negb comp))) eqn:Hs; [|discriminate]. cbn [andb].
+  destruct (negb (negb comp && has_suffix (slash :: rest) CompressedChunkExt_bytes)); [|discriminate].
+  destruct (bytes_eqb (firstn 4 (trim_suffix nm (ext_of (negb comp)))) (firstn 4 rest)) eqn:E; [|discriminate].
+  apply bytes_eqb_eq in E. intros U. apply has_suffix_spec in Hs. destruct Hs as [sid ->].
+  rewrite trim_suffix_app in *. exists sid. split; [|exact U].
+  rewrite E. f_equal. rewrite <- (firstn_skipn 4 rest) at 1. now rewrite K.
+Qed.
+
+Lemma http_paths_disjoint p i j : http_id_from_path true p = Some i -> http_id_from_path false p = Some j -> False.
+Proof.
+  intros A B. apply http_path_rule in A. apply http_path_rule in B.
+  destruct A as (sa & Pa & Ua), B as (sb & Pb & Ub). cbn [negb] in *. rewrite unc_ext_empty, app_nil_r in Pb.
+  destruct (unhex_id_some _ _ Ua) as [La _]. destruct (unhex_id_some _ _ Ub) as [Lb _].
+  assert (Fa : length (firstn 4 sa) = 4) by (rewrite firstn_length; lia).
+  assert (Fb : length (firstn 4 sb) = 4) by (rewrite firstn_length; lia).
+  assert (E : firstn 4 sa ++ slash :: sa ++ ext_of false = firstn 4 sb ++ slash :: sb)
+    by (rewrite Pa in Pb; exact (f_equal (@tl byte) Pb)).
+  apply app_eq_len in E; [|congruence]. destruct E as [_ E]. apply (f_equal (@tl byte)) in E. cbn [tl] in E.
+  apply (f_equal (@length byte)) in E. rewrite app_length, La, Lb in E.
+  pose proof ext_lengths_differ as D. rewrite unc_ext_empty in D. cbn [length] in D. lia.
+Qed.
+
+Lemma http_path_accepts_canonical comp i : wf_id i ->
+  http_id_from_path comp (slash :: firstn 4 (hex_id i) ++ slash :: hex_id i ++ ext_of (negb comp)) = Some i.
+Proof.
+  intros W. unfold http_id_from_path. rewrite N.eqb_refl. cbn [andb].
+  assert (L4 : length (firstn 4 (hex_id i)) = 4) by (rewrite firstn_length, hex_id_length; reflexivity).
+  replace (4 <=? length (firstn 4 (hex_id i) ++ slash :: hex_id i ++ ext_of (negb comp))) with true
+    by (symmetry; apply Nat.leb_le; rewrite app_length; lia).
+  rewrite skipn_app, L4, Nat.sub_diag, skipn_all2 by lia. cbn [app skipn]. rewrite N.eqb_refl. cbn [andb].
+  replace (has_suffix (hex_id i ++ ext_of (negb comp)) (ext_of (negb comp))) with true
+    by (symmetry; apply has_suffix_spec; now exists (hex_id i)).
+  cbn [andb]. rewrite trim_suffix_app.
+  rewrite firstn_app, L4, Nat.sub_diag, firstn_O, app_nil_r, firstn_firstn.
+  change (Nat.min 4 4) with 4. rewrite bytes_eqb_refl.
+  destruct comp; cbn [negb andb].
+  - now apply unhex_hex_id.
+  - rewrite unc_ext_empty, app_nil_r.
+    replace (has_suffix (slash :: firstn 4 (hex_id i) ++ slash :: hex_id i) CompressedChunkExt_bytes) with false.
+    + now apply unhex_hex_id.
+    + symmetry. destruct (has_suffix _ CompressedChunkExt_bytes) eqn:Hs; [exfalso|reflexivity].
+      replace (slash :: firstn 4 (hex_id i) ++ slash :: hex_id i) with ((slash :: firstn 4 (hex_id i) ++ [slash]) ++ hex_id i) in Hs
+        by (cbn [app]; rewrite <- app_assoc; reflexivity).
+      apply has_suffix_app_inv in Hs; [|rewrite hex_id_length; apply comp_ext_short].
+      apply has_suffix_spec in Hs. destruct Hs as [x Hx].
+      pose proof (hex_id_lower i) as Lw. rewrite Hx, forallb_app in Lw. apply andb_true_iff in Lw. destruct Lw as [_ Lw].
+      assert (F : forallb hexok (ext_of false) = true).
+      { change CompressedChunkExt_bytes with (ext_of false) in Lw. rewrite forallb_forall in *. intros c I. apply lower_hex_hexok, Lw, I. }
+      rewrite comp_ext_not_hex in F. discriminate.
+Qed.
